@@ -2,6 +2,8 @@ package main
 
 import (
 	"fmt"
+	"go/constant"
+	"go/token"
 	"go/types"
 	"sort"
 	"strings"
@@ -18,7 +20,7 @@ func init() {
 			"R4 every loop of the lexer/parser/splitter has a progress event (token consumption while the kind state excludes <eof>, or a strictly increasing cursor) on each feasible cycle. " +
 			"R5 the error result of entry points carries only MultiError / *Error, node results of single-node functions are never nil. " +
 			"Decides: containment of syntax-error panics, recovery discipline, loop progress. Does not decide: run-time panics from byte arithmetic (index/slice bounds), recursion depth.",
-		Rules: []ruleFn{ruleC03R1, ruleC03R2, ruleC03R3, ruleC03R4, ruleC03R5, ruleC03R6},
+		Rules: []ruleFn{ruleC03R1, ruleC03R2, ruleC03R3, ruleC03R4, ruleC03R5, ruleC03R6, ruleC13R3, ruleC03R8},
 	})
 }
 
@@ -521,4 +523,167 @@ func (w *World) calleeErrorKinds(call *ssa.Call, idx int, seen map[ssa.Value]boo
 		}
 	}
 	return out, ok
+}
+
+// ruleC03R8: standard-library calls with a panicking precondition on a count. strings.Repeat panics on a negative
+// count; the only callers are the two underline/indent computations of (*File).Position, which every error goes through.
+func ruleC03R8(w *World, r *Report) {
+	const rule = "C03/R8"
+	r.rule(rule, "every count handed to strings.Repeat / bytes.Repeat in the core packages is non-negative by construction: a constant, a length, a value clamped with `if n < 0 { n = 0 }` or max(0, n) on every incoming path, or the column result of (*File).ResolvePos for a valid position (assumption: the line table starts with 0, so the line loop finds a line and column = pos - start >= 0)", 2)
+	var nonNeg func(v ssa.Value, at *ssa.BasicBlock, seen map[ssa.Value]bool) (bool, string)
+	nonNeg = func(v ssa.Value, at *ssa.BasicBlock, seen map[ssa.Value]bool) (bool, string) {
+		if seen[v] {
+			return true, ""
+		}
+		seen[v] = true
+		switch x := v.(type) {
+		case *ssa.Const:
+			if x.Value != nil && x.Value.Kind() == constant.Int && constant.Sign(x.Value) >= 0 {
+				return true, ""
+			}
+			return false, "negative constant"
+		case *ssa.Call:
+			if bi, ok := x.Call.Value.(*ssa.Builtin); ok {
+				switch bi.Name() {
+				case "len", "cap":
+					return true, ""
+				case "max":
+					for _, a := range x.Call.Args {
+						if ok, _ := nonNeg(a, at, seen); ok {
+							return true, ""
+						}
+					}
+					return false, "max() without a non-negative operand"
+				case "min":
+					for _, a := range x.Call.Args {
+						if ok, why := nonNeg(a, at, seen); !ok {
+							return false, why
+						}
+					}
+					return true, ""
+				}
+			}
+			return false, "result of " + x.String()
+		case *ssa.Extract:
+			if c, ok := x.Tuple.(*ssa.Call); ok {
+				if sc := c.Call.StaticCallee(); sc != nil && funcName(sc) == "(*File).ResolvePos" && x.Index == 1 {
+					// column of a resolved position; the use must be on a path where the position is valid
+					return true, "assumed"
+				}
+			}
+			return false, "tuple element " + x.String()
+		case *ssa.Phi:
+			for i, e := range x.Edges {
+				pred := x.Block().Preds[i]
+				if ok, _ := nonNeg(e, pred, seen); ok {
+					continue
+				}
+				// the edge comes through the false side of `e < 0` / true side of `e >= 0`?
+				if !edgeImpliesNonNeg(pred, x.Block(), e) {
+					return false, fmt.Sprintf("on the edge from block %d the value %s is not clamped", pred.Index, e.Name())
+				}
+			}
+			return true, ""
+		case *ssa.Convert:
+			return nonNeg(x.X, at, seen)
+		case *ssa.BinOp:
+			if x.Op == token.ADD || x.Op == token.MUL {
+				okx, _ := nonNeg(x.X, at, seen)
+				oky, _ := nonNeg(x.Y, at, seen)
+				if okx && oky {
+					return true, ""
+				}
+			}
+			return false, "arithmetic " + x.String() + " that can be negative"
+		}
+		return false, "value " + v.String()
+	}
+	n := 0
+	for _, fn := range w.ModFns {
+		if !corePkg(fnPkgPath(fn)) || fn.Blocks == nil {
+			continue
+		}
+		for _, b := range fn.Blocks {
+			for _, in := range b.Instrs {
+				c, ok := in.(*ssa.Call)
+				if !ok {
+					continue
+				}
+				sc := c.Call.StaticCallee()
+				if sc == nil || sc.Pkg == nil || sc.Name() != "Repeat" || (sc.Pkg.Pkg.Path() != "strings" && sc.Pkg.Pkg.Path() != "bytes") {
+					continue
+				}
+				n++
+				construct := fmt.Sprintf("count of %s.Repeat #%d in %s", sc.Pkg.Pkg.Name(), n, funcName(fn))
+				arg := c.Call.Args[1]
+				// a use dominated by the false side of `arg < 0` is fine too
+				ok2, why := nonNeg(arg, b, map[ssa.Value]bool{})
+				if !ok2 && w.dominatedByNonNegTest(b, arg) {
+					ok2, why = true, ""
+				}
+				switch {
+				case !ok2:
+					r.bad(rule, construct, w.pos(c.Pos()), "the count can be negative ("+why+"): strings.Repeat panics with \"negative Repeat count\" while the error position is being formatted, instead of the *Error being returned")
+				case why == "assumed":
+					r.ok(rule, construct, w.pos(c.Pos()), "column of ResolvePos for a valid position (assumption stated in the rule)")
+				default:
+					r.ok(rule, construct, w.pos(c.Pos()), "non-negative by construction")
+				}
+			}
+		}
+	}
+	if n < 2 {
+		r.errorf("expected the two strings.Repeat calls of (*File).Position, found %d", n)
+	}
+}
+
+// edgeImpliesNonNeg: the CFG edge pred->succ is only taken when v >= 0 (pred ends in `if v < 0` and succ is its
+// false successor, or `if v >= 0` and succ its true successor), possibly through empty jump blocks.
+func edgeImpliesNonNeg(pred, succ *ssa.BasicBlock, v ssa.Value) bool {
+	for steps := 0; steps < 3; steps++ {
+		if iff, ok := pred.Instrs[len(pred.Instrs)-1].(*ssa.If); ok {
+			bo, ok := iff.Cond.(*ssa.BinOp)
+			if !ok || bo.X != v {
+				return false
+			}
+			idx := -1
+			for i, s := range pred.Succs {
+				if s == succ {
+					idx = i
+				}
+			}
+			if pred.Succs[0] == pred.Succs[1] {
+				return false
+			}
+			switch {
+			case bo.Op == token.LSS && constIntIs(bo.Y, 0):
+				return idx == 1
+			case bo.Op == token.GEQ && constIntIs(bo.Y, 0):
+				return idx == 0
+			case bo.Op == token.GTR && constIntIs(bo.Y, -1):
+				return idx == 0
+			case bo.Op == token.LEQ && constIntIs(bo.Y, -1):
+				return idx == 1
+			}
+			return false
+		}
+		if len(pred.Preds) != 1 || len(pred.Instrs) != 1 {
+			return false
+		}
+		succ, pred = pred, pred.Preds[0]
+	}
+	return false
+}
+
+func (w *World) dominatedByNonNegTest(b *ssa.BasicBlock, v ssa.Value) bool {
+	for d := b; d != nil; d = d.Idom() {
+		id := d.Idom()
+		if id == nil {
+			break
+		}
+		if len(d.Preds) == 1 && d.Preds[0] == id && edgeImpliesNonNeg(id, d, v) {
+			return true
+		}
+	}
+	return false
 }
